@@ -257,7 +257,14 @@ void TasmanianSparseGrid::makeFourierGrid(int dimensions, int outputs, int depth
 }
 
 void TasmanianSparseGrid::copyGrid(const TasmanianSparseGrid *source, int outputs_begin, int outputs_end){
-    if (outputs_end == -1) outputs_end = source->getNumOutputs();
+    if ((outputs_end == -1) || (outputs_end > source->getNumOutputs())) outputs_end = source->getNumOutputs();
+    if (source == this){ // self-copy, clear() below would destroy the source
+        if ((outputs_begin == 0) && (outputs_end == getNumOutputs())) return;
+        TasmanianSparseGrid tmp;
+        tmp.copyGrid(source, outputs_begin, outputs_end);
+        copyGrid(&tmp);
+        return;
+    }
     clear();
     if (!source->empty()){
         if (source->isGlobal()){
